@@ -101,7 +101,7 @@ fn directed_scripts(corpus: &[String], rng: &mut Rng) -> Vec<(String, Script)> {
     v
 }
 
-fn random_script(corpus: &[String], rng: &mut Rng) -> Script {
+pub fn random_script(corpus: &[String], rng: &mut Rng) -> Script {
     let mut cmds = vec![];
     if rng.chance(1, 2) {
         cmds.push(Cmd::Uci);
